@@ -78,6 +78,8 @@ struct SimThread {
     int wake_reason = WR_NONE;
     uint64_t prio = 0;
     uint64_t last_run_step = 0;
+    int create_fail_n = 0, create_fail_err = 0; // armed per calling thread
+    int aff_fail_n = 0, aff_fail_err = 0;
 };
 
 struct MutexS { int owner = -1; int idx; };
@@ -131,8 +133,6 @@ struct Global {
     observer_fn obs = nullptr;
     void *obs_ud = nullptr;
     // fault arming
-    int create_fail_n = 0, create_fail_err = 0;
-    int aff_fail_n = 0, aff_fail_err = 0;
     int pushref_mode = 0;
     double pushref_p = 0;
     bool pushref_next = false;
@@ -588,7 +588,6 @@ void begin(const Plan &plan) {
     G.stats = Stats();
     G.steps = 0; G.tail = false;
     G.choice_idx = 0; G.rec.clear(); G.choice_hash = 0;
-    G.create_fail_n = G.aff_fail_n = 0;
     G.pushref_mode = 0; G.pushref_next = false;
     G.pages.clear(); G.pages_total = 0;
     G.obs = nullptr; G.obs_ud = nullptr;
@@ -675,8 +674,8 @@ Stats end() {
     return G.stats;
 }
 
-void set_create_fail(int nth, int err) { G.create_fail_n = nth; G.create_fail_err = err; }
-void set_affinity_fail(int nth, int err) { G.aff_fail_n = nth; G.aff_fail_err = err; }
+void set_create_fail(int nth, int err) { if (tl_self) { tl_self->create_fail_n = nth; tl_self->create_fail_err = err; } }
+void set_affinity_fail(int nth, int err) { if (tl_self) { tl_self->aff_fail_n = nth; tl_self->aff_fail_err = err; } }
 const std::vector<PageInfo> &live_pages() { return G.pages; }
 uint64_t pages_allocated_total() { return G.pages_total; }
 
@@ -832,10 +831,10 @@ int cond_signal(pthread_cond_t *c, bool all) {
 
 int thread_create(pthread_t *out, void *(*fn)(void *), void *arg) {
     point(PK_THREAD_CREATE, nullptr, 0);
-    if (G.create_fail_n > 0 && --G.create_fail_n == 0) {
+    if (tl_self->create_fail_n > 0 && --tl_self->create_fail_n == 0) {
         fault_fired("pthread_create_fail");
-        log_event(PK_FAULT, nullptr, 300 + G.create_fail_err);
-        return G.create_fail_err;
+        log_event(PK_FAULT, nullptr, 300 + tl_self->create_fail_err);
+        return tl_self->create_fail_err;
     }
     if (G.nthreads >= MAX_THREADS) violation("sim-limit", "more than %d simulated threads", MAX_THREADS);
     Slot *s = nullptr;
@@ -972,10 +971,10 @@ int __wrap_pthread_detach(pthread_t t) {
 }
 int __wrap_pthread_attr_setaffinity_np(pthread_attr_t *a, size_t n, const cpu_set_t *s) {
     if (sim::active()) {
-        if (G.aff_fail_n > 0 && --G.aff_fail_n == 0) {
+        if (tl_self->aff_fail_n > 0 && --tl_self->aff_fail_n == 0) {
             fault_fired("setaffinity_fail");
-            log_event(PK_FAULT, nullptr, 400 + G.aff_fail_err);
-            return G.aff_fail_err;
+            log_event(PK_FAULT, nullptr, 400 + tl_self->aff_fail_err);
+            return tl_self->aff_fail_err;
         }
         return 0;
     }
